@@ -150,12 +150,10 @@ func (r *armoredReader) Read(p []byte) (int, error) {
 	if bytes.ContainsAny(line, "\n\r") {
 		return 0, r.setErr(errors.New("unexpected newline character"))
 	}
-	r.unread = r.buf[:]
-	n, err := base64.StdEncoding.Strict().Decode(r.unread, line)
+	n, err := base64.StdEncoding.Strict().Decode(r.buf[:], line)
 	if err != nil {
 		return 0, r.setErr(err)
 	}
-	r.unread = r.unread[:n]
 
 	if n < format.BytesPerLine {
 		line, err := getLine()
@@ -167,6 +165,7 @@ func (r *armoredReader) Read(p []byte) (int, error) {
 		}
 		r.setErr(drainTrailing())
 	}
+	r.unread = r.buf[:n]
 
 	nn := copy(p, r.unread)
 	r.unread = r.unread[nn:]
